@@ -91,8 +91,13 @@ def handle_function(rep, mod, env, c, budget, lock):
         rep.errors.append('%s: zero obligations generated' % c.label)
         return
     if r.missing_covers:
-        rep.errors.append('%s: vacuity guard failed, outcomes not reachable: %s'
-                          % (c.label, r.missing_covers))
+        if not any(r.covers.values()):
+            rep.errors.append('%s: vacuity guard failed, no feasible path at all' % c.label)
+        else:
+            # an outcome the contract expects to be reachable no longer is: the proof has lost its
+            # footing for that clause (undecided; the bounded search then looks for a real failure)
+            rep.undecided.append({'obligation': '%s :: cover/%s' % (c.label, ','.join(r.missing_covers)),
+                                  'why': 'expected outcome not reachable any more'})
     seen_names = set()
     refuted = {}
     for o in r.obligations:
